@@ -150,7 +150,13 @@ class Problem:
                 return out
             self.f = f
         if rec["herm_op"]:
-            self.Fd = (self.Fd + self.Fd.conj().T) / 2  # differs from the map by rounding only (validated below)
+            self.Fd = (self.Fd + self.Fd.conj().T) / 2  # differs from the map by rounding only (validated by basis_check)
+        shift = rec.get("shift", 0)
+        if shift:
+            f0 = self.f
+            self.f = lambda x: f0(x) + shift * x
+            self.Fd = self.Fd + shift * np.eye(self.dim)
+        self.normF = float(np.linalg.norm(self.Fd, 2))
 
     # ---- vectors ------------------------------------------------------------------------------
     def to_tensor(self, x):
@@ -209,3 +215,758 @@ def bits(x):
 
 def unbits(u):
     return struct.unpack("<d", struct.pack("<Q", int(u)))[0]
+
+
+# ----------------------------------------------------------------------------------------------
+# instrumentation of the real call
+# ----------------------------------------------------------------------------------------------
+
+class Livelock(Exception):
+    pass
+
+
+class Watch:
+    """counts calls of f, records its inputs, and aborts a run that keeps exponentiating the small matrix without ever
+    calling f again (a legitimate run re-evaluates expm a handful of times between two calls of f)."""
+    LIMIT = 300
+
+    def __init__(self, P, record=False):
+        self.P, self.calls, self.idle, self.record, self.inputs = P, 0, 0, record, []
+
+    def f(self, x):
+        self.calls += 1
+        self.idle = 0
+        if self.record:
+            self.inputs.append(self.P.to_vec(x)[0])
+        return self.P.f(x)
+
+    def __enter__(self):
+        self.backend = self.P.cfg.backend
+        self.orig = self.backend.expm
+
+        def expm(x):
+            self.idle += 1
+            if self.idle > self.LIMIT:
+                raise Livelock(f"{self.idle} consecutive backend.expm calls without a call of f")
+            return self.orig(x)
+        self.backend.expm = expm
+        return self
+
+    def __exit__(self, *a):
+        self.backend.expm = self.orig
+        return False
+
+
+def sector_ok(P, out, v):
+    """result lies in the symmetry sector of the start vector: same charge, signature, legs consistent, nothing outside."""
+    try:
+        if tuple(out.struct.n) != tuple(v.struct.n) or tuple(out.get_signature()) != tuple(v.get_signature()):
+            return f"charge/signature {out.struct.n}/{out.get_signature()} differ from the start vector's {v.struct.n}/{v.get_signature()}"
+        w, outside = P.to_vec(out)
+    except Exception as e:
+        return f"structure inconsistent with the start vector: {type(e).__name__}: {e}"
+    if outside != 0.0:
+        return f"entries of magnitude {outside} outside the charge sector"
+    return None
+
+
+# ----------------------------------------------------------------------------------------------
+# expmv
+# ----------------------------------------------------------------------------------------------
+
+TOLS = [1e-4, 1e-6, 1e-8, 1e-10, 1e-12, 1e-14]
+NCVS = [0, 1, 2, 3, 4, 5, 8, 10, 15, 20, 25, 30, 31, 40]
+MAGS = [1e-3, 1e-2, 0.1, 1, 3, 10, 30, 100, 300]
+
+
+def gen_problem(rng, quick, lo=4, hi=None, big=False):
+    hi = hi or (60 if quick else 200)
+    for _ in range(50):
+        sid = rng.choice(SYM_IDS)
+        if big:
+            r = gen_legs(rng, sid, 31, hi)
+        else:
+            r = gen_legs(rng, sid, lo, min(hi, 30) if rng.random() < 0.5 else hi)
+        if r is not None:
+            legs, n, _sz = r
+            return {"sym": sid, "legs": legs, "n": n, "seed": rng.randrange(2 ** 31),
+                    "dtype": rng.choice(["float64", "complex128"]), "herm_op": rng.random() < 0.5,
+                    "opkind": rng.choice(["full", "full", "twosided"]), "nterms": rng.randint(1, 3)}
+    raise core.InfraError("generator could not build a sector of the requested size")
+
+
+def gen_start(rng):
+    r = rng.random()
+    if r < 0.55:
+        return ["random", None]
+    if r < 0.62:
+        return ["zero", None]
+    if r < 0.74:
+        return ["eigvec", None]
+    if r < 0.86:
+        return ["invariant", rng.randint(2, 5)]
+    return ["near-invariant", rng.choice([1e-4, 1e-7, 1e-10, 1e-13])]
+
+
+def gen_expmv_case(rng, quick):
+    big = rng.random() < 0.35
+    rec = gen_problem(rng, quick, big=big)
+    r = rng.random()
+    if r < 0.08:
+        t = [0.0, 0.0]
+        tkind = rng.choice(["int0", "float0", "complex0"])
+    else:
+        mag = rng.choice(MAGS[4:] if big and rng.random() < 0.7 else MAGS) * rng.uniform(0.7, 1.4)
+        ph = rng.choice(["+", "-", "+i", "-i", "c"])
+        z = {"+": 1, "-": -1, "+i": 1j, "-i": -1j}.get(ph) or complex(math.cos(a := rng.uniform(0, 2 * math.pi)), math.sin(a))
+        z = complex(z) * mag
+        t = [z.real, z.imag]
+        tkind = "real" if ph in "+-" else "complex"
+    herm = rec["herm_op"] and rng.random() < 0.6
+    return {"solver": "expmv", "prob": rec, "start": gen_start(rng), "t": t, "tkind": tkind, "tol": rng.choice(TOLS),
+            "ncv": rng.choice(NCVS), "hermitian": herm, "normalize": rng.random() < 0.4, "return_info": rng.random() < 0.7}
+
+
+def t_value(case):
+    re_, im_ = case["t"]
+    k = case["tkind"]
+    if k == "int0":
+        return 0
+    if k == "float0":
+        return 0.0
+    if k == "real":
+        return float(re_)
+    return complex(re_, im_)
+
+
+def expm_reference(P, t, x):
+    """exp(tF)x with an independent dense method + amplification factor of a relative error committed on the way
+    (max over s in {0, 1/2} of |exp((1-s)tF)| |exp(stF)x| / |exp(tF)x|) + uncertainty of the reference itself."""
+    F = P.Fd
+    nx = np.linalg.norm(x)
+    if P.rec["herm_op"]:
+        lam, U = np.linalg.eigh(F)
+        c = U.conj().T @ x
+        ref = U @ (np.exp(t * lam) * c)
+        half = U @ (np.exp(0.5 * t * lam) * c)
+        n1 = math.exp(np.max((t * lam).real))
+        nh = math.exp(np.max((0.5 * t * lam).real))
+        unc = 50 * EPS * n1 * nx
+    else:
+        E2 = scipy.linalg.expm(0.5 * t * F)
+        E = scipy.linalg.expm(t * F)
+        ref = E @ x
+        half = E2 @ x
+        n1 = np.linalg.norm(E, 2)
+        nh = np.linalg.norm(E2, 2)
+        unc = float(np.linalg.norm(E2 @ half - ref)) + 50 * EPS * n1 * nx   # two evaluations of the same quantity
+    nr = np.linalg.norm(ref)
+    if not np.isfinite(nr) or nr == 0:
+        return ref, float("inf"), float("inf")
+    amp = max(1.0, n1 * nx / nr, nh * np.linalg.norm(half) / nr)
+    return ref, float(amp), float(unc / nr)
+
+
+def eval_expmv(ctx, case, corr=None):
+    """one real expmv call + eager oracles; `corr` collects (case, data) for the model correspondence."""
+    import yastn
+    P = Problem(case["prob"])
+    x = P.start_vector(*case["start"])
+    v = P.to_tensor(x)
+    t = t_value(case)
+    tol, ncv, herm, normalize = case["tol"], case["ncv"], case["hermitian"], case["normalize"]
+    tag = "expmv"
+    bc = P.basis_check(2)
+    if bc > 1e-12:
+        ctx.fail("contract", "c18:contract:dense-matrix", f"dense sector matrix differs from the action of f on basis tensors by {bc}", case=case)
+        return
+    nx = float(np.linalg.norm(x))
+    ctx.count(f"{tag}:sym:{case['prob']['sym']}"); ctx.count(f"{tag}:start:{case['start'][0]}")
+    ctx.count(f"{tag}:op:{'herm' if case['prob']['herm_op'] else 'nonherm'}:{case['prob']['dtype']}:{case['prob']['opkind']}")
+    ctx.count(f"{tag}:flag-hermitian:{herm}"); ctx.count(f"{tag}:normalize:{normalize}"); ctx.count(f"{tag}:tkind:{case['tkind']}")
+    ctx.count(f"{tag}:dim:" + ("4-10" if P.dim <= 10 else "11-30" if P.dim <= 30 else "31-60" if P.dim <= 60 else "61-200"))
+    W = Watch(P)
+    info = None
+    try:
+        with core.time_limit(20 if ctx.quick else 60), W:
+            res = yastn.expmv(W.f, v, t, tol, ncv, hermitian=herm, normalize=normalize, return_info=case["return_info"])
+        out, info = res if case["return_info"] else (res, None)
+    except Livelock as e:
+        ctx.count(f"{tag}:livelock")
+        ctx.fail("oracle", "c18:expmv:livelock-ncv-above-ncvmax" if ncv > min(30, P.dim) else "c18:expmv:livelock",
+                 f"expmv does not terminate: {e} (f called {W.calls} times in total); dim={P.dim} t={t} tol={tol} ncv={ncv} hermitian={herm}",
+                 case=case, concrete=True)
+        return
+    except core.CaseTimeout:
+        ctx.count(f"{tag}:timeout")
+        ctx.notes.append(f"expmv case hit the wall-clock guard (not a verdict): dim={P.dim} t={t} tol={tol} ncv={ncv}")
+        return
+    except yastn.YastnError as e:
+        if nx == 0 and normalize:
+            ctx.count(f"{tag}:zero-normalize-raises")
+            ctx.case(case, nontrivial=False)
+            return
+        ctx.fail("oracle", "c18:expmv:exception", f"expmv raised YastnError: {e}", case=case, concrete=True)
+        return
+    except Exception as e:
+        ctx.fail("oracle", "c18:expmv:exception", f"expmv raised {type(e).__name__}: {e}; dim={P.dim} t={t} tol={tol} ncv={ncv} hermitian={herm}",
+                 case=case, concrete=True)
+        return
+    if nx == 0 and normalize:
+        ctx.fail("oracle", "c18:expmv:zero-normalize", "expmv(normalize=True) of a zero vector did not raise YastnError", case=case, concrete=True)
+        return
+    bad = sector_ok(P, out, v)
+    if bad:
+        ctx.fail("oracle", "c18:expmv:sector", f"expmv result leaves the sector of the start vector: {bad}", case=case, concrete=True)
+        return
+    w, _ = P.to_vec(out)
+    nontrivial = nx > 0 and t != 0
+    ctx.case(case, nontrivial=nontrivial)
+    if info is not None:
+        ctx.count(f"{tag}:steps:" + ("0" if info["steps"] == 0 else "1" if info["steps"] == 1 else "2-5" if info["steps"] <= 5 else ">5"))
+        if info["krylov_steps"] != W.calls:
+            ctx.fail("oracle", "c18:expmv:info-krylov-steps", f"info.krylov_steps={info['krylov_steps']} but f was executed {W.calls} times", case=case, concrete=True)
+        if (info["steps"] == 0) != (not nontrivial):
+            ctx.fail("oracle", "c18:expmv:info-steps", f"info.steps={info['steps']} for t={t}, |v|={nx}", case=case, concrete=True)
+    # ---- zero vector / t = 0 branches: the input comes back ------------------------------------
+    if nx == 0:
+        if np.max(np.abs(w), initial=0.0) != 0.0:
+            ctx.fail("oracle", "c18:expmv:zero-vector", f"expmv of the zero vector is not zero (max entry {np.max(np.abs(w))})", case=case, concrete=True)
+        return
+    if t == 0:
+        ref = x / nx if normalize else x
+        if np.linalg.norm(w - ref) > 1e-13 * np.linalg.norm(ref) or W.calls != 0:
+            ctx.fail("oracle", "c18:expmv:t-zero", f"expmv with t=0 changed the vector by {np.linalg.norm(w - ref)} / called f {W.calls} times", case=case, concrete=True)
+        return
+    # ---- dense reference -------------------------------------------------------------------------
+    ref, amp, unc = expm_reference(P, t, x)
+    if not np.isfinite(amp) or amp > 1e3 or unc > 1e-10:
+        ctx.count(f"{tag}:skip:ill-conditioned")
+        return
+    nref = np.linalg.norm(ref)
+    if normalize:
+        nw = np.linalg.norm(w)
+        if abs(nw - 1) > 1e-12:
+            ctx.fail("oracle", "c18:expmv:normalize", f"normalize=True but the result has norm {nw!r}", case=case, concrete=True)
+        ref = ref / nref
+        nref = 1.0
+    err = float(np.linalg.norm(w - ref) / nref)
+    bound = max(100 * tol, 1e-9) * amp + 100 * unc
+    ctx.count(f"{tag}:compared")
+    ctx.extra["expmv_max_err_over_bound"] = max(ctx.extra.get("expmv_max_err_over_bound", 0.0), err / bound)
+    if not err <= bound:
+        what = "exp(tF)v/|exp(tF)v|" if normalize else "exp(tF)v"
+        ctx.fail("oracle", "c18:expmv:value",
+                 f"expmv differs from the dense {what}: relative error {err:.3e} > {bound:.3e} (tol={tol}, error amplification {amp:.2f}); "
+                 f"dim={P.dim} sym={case['prob']['sym']} t={t} ncv={ncv} hermitian={herm} normalize={normalize} start={case['start']}",
+                 case=case, concrete=True)
+    if corr is not None:
+        corr.append((case, P, x, w, info, amp, W.calls))
+
+
+def vecJ(x, cplx):
+    x = np.asarray(x)
+    return {"re": [bits(a) for a in x.real], "im": [bits(a) for a in x.imag] if cplx else None}
+
+
+def matJ(M, cplx):
+    d = vecJ(np.asarray(M).reshape(-1), cplx)
+    d["n"] = int(M.shape[0])
+    return d
+
+
+def vecP(d):
+    return np.array([unbits(a) for a in d["re"]]) + 1j * np.array([unbits(a) for a in d["im"]])
+
+
+def cnumP(z):
+    return complex(unbits(z[0]), unbits(z[1]))
+
+
+def corr_expmv(ctx, items):
+    """Lean Float instantiation of the model on the same dense matrix / vector."""
+    if ctx.drv is None:
+        return
+    for case, P, x, w, info, amp, calls in items:
+        t = complex(t_value(case))
+        cplx = bool(P.cplx or np.iscomplexobj(x) or case["tkind"] == "complex")
+        r = ctx.drv.call({"op": "expmv", "cplx": cplx, "F": matJ(P.Fd, cplx), "v": vecJ(x, cplx), "t": [bits(t.real), bits(t.imag)],
+                          "tol": bits(case["tol"]), "ncv": max(case["ncv"], 0), "herm": bool(case["hermitian"]),
+                          "normalize": bool(case["normalize"]), "fuel": 3000})
+        if not r.get("ok") or "v" not in r:
+            ctx.count("corr:expmv:model-error")
+            ctx.fail("correspondence", "c18:corr:expmv-model-error", f"model run failed: {str(r)[:200]}", case=case)
+            continue
+        wm = vecP(r["v"])
+        same_path = info is not None and info["steps"] == len(r["steps"]) and calls == r["nf"]
+        if info is not None:
+            ctx.count("corr:expmv:" + ("same-path" if same_path else "different-path"))
+        d = float(np.linalg.norm(w - wm) / max(np.linalg.norm(w), 1e-300))
+        bound = (1e-8 if same_path else max(1e-8, 100 * case["tol"])) * amp
+        ctx.extra["corr_expmv_max_dev_over_bound"] = max(ctx.extra.get("corr_expmv_max_dev_over_bound", 0.0), d / bound)
+        if not d <= bound:
+            ctx.fail("correspondence", "c18:corr:expmv", f"model and real expmv differ by {d:.3e} (bound {bound:.1e}, same path: {same_path})", case=case)
+        # the model's accepted exponents add up to t (theorem expmv_time, checked on the Float run)
+        s = sum((cnumP(z) for z in r["steps"]), 0j)
+        if abs(s - t) > 1e-9 * abs(t):
+            ctx.fail("correspondence", "c18:corr:expmv-time", f"accepted exponents of the model sum to {s}, t={t}", case=case)
+
+
+# ----------------------------------------------------------------------------------------------
+# eigs
+# ----------------------------------------------------------------------------------------------
+
+WHICH = ["LM", "SM", "LR", "SR", "SR", "other"]
+
+
+def which_key(which, val):
+    val = np.asarray(val)
+    if which == "LM":
+        return -np.abs(val)
+    if which == "SM":
+        return np.abs(val)
+    if which == "LR":
+        return -val.real
+    return val.real + 0.0
+
+
+def gen_eigs_case(rng, quick):
+    rec = gen_problem(rng, quick, hi=40 if quick else 120)
+    herm = rec["herm_op"] and rng.random() < 0.6
+    st = gen_start(rng)
+    r = rng.random()
+    ncv = ("dim+", rng.randint(0, 4)) if r < 0.4 else ("abs", rng.choice([1, 2, 3, 4, 6, 8, 10, 15, 20, 30]))
+    return {"solver": "eigs", "prob": rec, "start": st, "k": rng.choice([1, 1, 2, 3, 4]), "which": rng.choice(WHICH),
+            "ncv": list(ncv), "hermitian": herm}
+
+
+def krylov_facts(P, X):
+    """numpy facts about the recorded Krylov vectors: orthonormality defect, orthonormal basis, invariance defect."""
+    Xm = np.array(X).T
+    G = Xm.conj().T @ Xm
+    delta = float(np.max(np.abs(G - np.eye(G.shape[0]))))
+    Q, R = np.linalg.qr(Xm)
+    last = P.Fd @ Xm[:, -1]
+    rinv = float(np.linalg.norm(last - Q @ (Q.conj().T @ last)))
+    return Xm, Q, delta, rinv
+
+
+def eval_eigs(ctx, case, corr=None):
+    import yastn
+    P = Problem(case["prob"])
+    x = P.start_vector(*case["start"])
+    v = P.to_tensor(x)
+    which, k, herm = case["which"], case["k"], case["hermitian"]
+    ncv = P.dim + case["ncv"][1] if case["ncv"][0] == "dim+" else case["ncv"][1]
+    tag = "eigs"
+    nx = float(np.linalg.norm(x))
+    ctx.count(f"{tag}:sym:{case['prob']['sym']}"); ctx.count(f"{tag}:start:{case['start'][0]}"); ctx.count(f"{tag}:which:{which}")
+    ctx.count(f"{tag}:op:{'herm' if case['prob']['herm_op'] else 'nonherm'}:{case['prob']['dtype']}"); ctx.count(f"{tag}:flag-hermitian:{herm}")
+    W = Watch(P, record=True)
+    try:
+        with core.time_limit(20 if ctx.quick else 60), W:
+            vals, Y = yastn.eigs(W.f, v, k=k, which=which, ncv=ncv, hermitian=herm)
+    except core.CaseTimeout:
+        ctx.count(f"{tag}:timeout"); return
+    except yastn.YastnError as e:
+        if nx == 0:
+            ctx.count(f"{tag}:zero-raises"); ctx.case(case, nontrivial=False); return
+        ctx.fail("oracle", "c18:eigs:exception", f"eigs raised YastnError: {e}", case=case, concrete=True); return
+    except IndexError:
+        if W.calls < k:
+            ctx.count(f"{tag}:k>krylov-dimension:IndexError"); ctx.case(case, nontrivial=False); return
+        ctx.fail("oracle", "c18:eigs:exception", f"eigs raised IndexError although the Krylov space has dimension {W.calls} >= k={k}", case=case, concrete=True); return
+    except Exception as e:
+        ctx.fail("oracle", "c18:eigs:exception", f"eigs raised {type(e).__name__}: {e}", case=case, concrete=True); return
+    if nx == 0:
+        ctx.fail("oracle", "c18:eigs:zero-vector", "eigs of a zero start vector did not raise", case=case, concrete=True); return
+    ctx.case(case, nontrivial=True)
+    vals = np.atleast_1d(np.asarray(vals))
+    m = W.calls
+    if len(vals) != k or len(Y) != k:
+        ctx.fail("oracle", "c18:eigs:count", f"eigs returned {len(vals)} values / {len(Y)} vectors for k={k}", case=case, concrete=True); return
+    ys = []
+    for y in Y:
+        bad = sector_ok(P, y, v)
+        if bad:
+            ctx.fail("oracle", "c18:eigs:sector", f"Ritz vector leaves the sector of the start vector: {bad}", case=case, concrete=True); return
+        ys.append(P.to_vec(y)[0])
+    Xm, Q, delta, rinv = krylov_facts(P, W.inputs)
+    nF = P.normF
+    ctx.count(f"{tag}:krylov:" + ("spans-sector" if m >= P.dim else "happy/invariant" if rinv <= 1e-9 * nF else "partial"))
+    herm_op = case["prob"]["herm_op"]
+    # --- variational bounds for Hermitian maps (any ncv, robust against loss of orthogonality) -----------------
+    if herm_op:
+        lam = np.linalg.eigvalsh(P.Fd)
+        if np.max(np.abs(vals.imag)) > 1e-9 * nF or vals.real.min() < lam[0] - 1e-9 * nF or vals.real.max() > lam[-1] + 1e-9 * nF:
+            ctx.fail("oracle", "c18:eigs:variational", f"Ritz values {vals} of a Hermitian map leave the spectrum [{lam[0]}, {lam[-1]}]", case=case, concrete=True)
+        ctx.count(f"{tag}:variational-checked")
+    if delta > 1e-9:
+        ctx.count(f"{tag}:skip:orthogonality-lost")
+        return
+    # --- Ritz pairs: Galerkin condition on the recorded Krylov space, ordering by `which` ---------------------------
+    B = Q.conj().T @ P.Fd @ Q
+    if herm_op:
+        mu = np.linalg.eigvalsh(B).astype(complex)
+        kappa = 1.0
+    else:
+        mu, Wv = np.linalg.eig(B)
+        kappa = float(np.linalg.cond(Wv))
+    if kappa > 1e4:
+        ctx.count(f"{tag}:skip:ill-conditioned-eigenproblem")
+        return
+    tol_e = 1e-8 * nF * kappa
+    keys_ref = np.sort(which_key(which, mu))
+    keys = which_key(which, vals)
+    ctx.count(f"{tag}:ritz-checked")
+    if np.max(np.abs(keys - keys_ref[:k])) > tol_e:
+        ctx.fail("oracle", "c18:eigs:which", f"eigs(which={which!r}, k={k}) returned values with sort keys {keys.tolist()}, the Ritz values of the "
+                 f"Krylov space have leading keys {keys_ref[:k].tolist()} (dim={P.dim}, Krylov dimension {m})", case=case, concrete=True)
+        return
+    for th, y in zip(vals, ys):
+        ny = np.linalg.norm(y)
+        if ny == 0 or np.min(np.abs(mu - th)) > tol_e:
+            ctx.fail("oracle", "c18:eigs:ritz-value", f"returned value {th} is not a Ritz value of the Krylov space (nearest {mu[np.argmin(np.abs(mu - th))]})", case=case, concrete=True)
+            return
+        r = P.Fd @ y - th * y
+        span = np.linalg.norm(y - Q @ (Q.conj().T @ y)) / ny
+        gal = np.linalg.norm(Q.conj().T @ r) / ny
+        if span > 1e-8 or gal > 1e-7 * nF * kappa:
+            ctx.fail("oracle", "c18:eigs:ritz-pair", f"(value, vector) is not a Ritz pair: distance from the Krylov space {span:.2e}, Galerkin residual {gal:.2e}", case=case, concrete=True)
+            return
+        if rinv <= 1e-10 * nF and np.linalg.norm(r) / ny > 1e-7 * nF * kappa:
+            ctx.fail("oracle", "c18:eigs:exact", f"Krylov space is invariant (defect {rinv:.1e}) but |F y - theta y|/|y| = {np.linalg.norm(r) / ny:.2e}", case=case, concrete=True)
+            return
+    if herm_op:
+        # Cauchy interlacing / Rayleigh quotient of the start vector
+        rq = float((x.conj() @ P.Fd @ x).real / (nx * nx))
+        srt = np.sort(vals.real)
+        if which in ("SR", "other") and (np.any(srt < lam[:k] - 1e-9 * nF) or vals.real[0] > rq + 1e-9 * nF):
+            ctx.fail("oracle", "c18:eigs:variational", f"SR Ritz values {vals.real} violate lambda_i <= theta_i or theta_0 <= <v|F|v>={rq}", case=case, concrete=True)
+        if which == "LR" and (np.any(srt[::-1] > lam[::-1][:k] + 1e-9 * nF) or vals.real[0] < rq - 1e-9 * nF):
+            ctx.fail("oracle", "c18:eigs:variational", f"LR Ritz values {vals.real} violate theta_i <= lambda_i(desc) or theta_0 >= <v|F|v>={rq}", case=case, concrete=True)
+    if m >= P.dim:
+        lam_all = np.linalg.eigvalsh(P.Fd).astype(complex) if herm_op else np.linalg.eigvals(P.Fd)
+        kr = np.sort(which_key(which, lam_all))[:k]
+        ctx.count(f"{tag}:exact-spectrum-checked")
+        if np.max(np.abs(keys - kr)) > 10 * tol_e:
+            ctx.fail("oracle", "c18:eigs:exact", f"Krylov space spans the whole sector (dim {P.dim}) but the returned values (keys {keys.tolist()}) are not the "
+                     f"leading eigenvalues of the dense matrix (keys {kr.tolist()})", case=case, concrete=True)
+    if corr is not None:
+        corr.append((case, P, x, ncv, vals, ys, kappa))
+
+
+def corr_eigs(ctx, items):
+    if ctx.drv is None:
+        return
+    for case, P, x, ncv, vals, ys, kappa in items:
+        cplx = bool(P.cplx or np.iscomplexobj(x) or not case["hermitian"])   # eig of a real matrix is complex
+        base = {"cplx": cplx, "F": matJ(P.Fd, cplx), "v0": vecJ(x, cplx), "ncv": int(ncv), "herm": bool(case["hermitian"])}
+        r1 = ctx.drv.call(dict(base, op="expand", tol=bits(1e-13)))
+        if not r1.get("ok") or "T" not in r1:
+            ctx.fail("correspondence", "c18:corr:eigs-model-error", f"model expand failed: {str(r1)[:200]}", case=case); continue
+        T = np.array([[cnumP(z) for z in row] for row in r1["T"]]).reshape(r1["m"], r1["m"])
+        if case["hermitian"]:
+            ev, U = np.linalg.eigh(T)
+        else:
+            ev, U = np.linalg.eig(T if cplx else T.real)
+        pairs = [[[bits(complex(e).real), bits(complex(e).imag)], [[bits(complex(u).real), bits(complex(u).imag)] for u in U[:, i]]] for i, e in enumerate(ev)]
+        r2 = ctx.drv.call(dict(base, op="eigs", k=case["k"], which=case["which"], pairs=pairs))
+        if not r2.get("ok") or "vals" not in r2:
+            ctx.fail("correspondence", "c18:corr:eigs-model-error", f"model eigs failed: {str(r2)[:200]}", case=case); continue
+        mv = np.array([cnumP(z) for z in r2["vals"]])
+        tol_e = 1e-8 * P.normF * kappa
+        ctx.count("corr:eigs")
+        kk = which_key(case["which"], mv) - which_key(case["which"], vals)
+        if np.max(np.abs(kk)) > tol_e:
+            ctx.fail("correspondence", "c18:corr:eigs-values", f"model Ritz values {mv} vs real {vals}", case=case); continue
+        for i, (a, b) in enumerate(zip(mv, vals)):
+            others = np.delete(ev, np.argmin(np.abs(ev - a)))
+            gap = np.min(np.abs(others - a)) if len(others) else 1.0
+            if abs(a - b) <= tol_e and gap > 1e-3 * P.normF:
+                ym = vecP(r2["Y"][i])
+                ov = abs(np.vdot(ym, ys[i])) / max(np.linalg.norm(ym) * np.linalg.norm(ys[i]), 1e-300)
+                ctx.count("corr:eigs:vector")
+                if abs(ov - 1) > 1e-8 * kappa / min(gap / P.normF, 1.0):
+                    ctx.fail("correspondence", "c18:corr:eigs-vector", f"model and real Ritz vector {i} have overlap {ov}", case=case)
+
+
+# ----------------------------------------------------------------------------------------------
+# lin_solver
+# ----------------------------------------------------------------------------------------------
+
+def gen_lin_case(rng, quick):
+    rec = gen_problem(rng, quick, hi=40 if quick else 100)
+    rec["shift"] = rng.choice([0, 0, 1.5, 2.5])
+    herm = rec["herm_op"] and rng.random() < 0.6
+    r = rng.random()
+    ncv = ("dim+", rng.randint(0, 3)) if r < 0.5 else ("abs", rng.choice([1, 2, 3, 5, 8, 12, 20]))
+    return {"solver": "lin_solver", "prob": rec, "v0": rng.choice(["zero", "random", "random", "solution"]), "ncv": list(ncv),
+            "tol": rng.choice([1e-16, 1e-13, 1e-10]), "pinv_tol": rng.choice([1e-13, 1e-10]), "hermitian": herm}
+
+
+def eval_lin(ctx, case, corr=None):
+    import yastn
+    P = Problem(case["prob"])
+    b = P.start_vector("random")
+    if case["v0"] == "zero":
+        x0 = 0 * b
+    elif case["v0"] == "random":
+        x0 = P.start_vector("random")
+    else:  # b = F x0 up to rounding: residual at round-off level (or exactly zero -> YastnError)
+        x0 = np.linalg.solve(P.Fd, b)
+    bt, v0 = P.to_tensor(b), P.to_tensor(x0)
+    ncv = P.dim + case["ncv"][1] if case["ncv"][0] == "dim+" else case["ncv"][1]
+    herm, tol, ptol = case["hermitian"], case["tol"], case["pinv_tol"]
+    tag = "lin"
+    ctx.count(f"{tag}:sym:{case['prob']['sym']}"); ctx.count(f"{tag}:v0:{case['v0']}"); ctx.count(f"{tag}:flag-hermitian:{herm}")
+    W = Watch(P, record=True)
+    try:
+        with core.time_limit(20 if ctx.quick else 60), W:
+            vf, res = yastn.lin_solver(W.f, bt, v0, ncv=ncv, tol=tol, pinv_tol=ptol, hermitian=herm)
+    except core.CaseTimeout:
+        ctx.count(f"{tag}:timeout"); return
+    except yastn.YastnError as e:
+        ctx.count(f"{tag}:YastnError")
+        r0 = np.linalg.norm(b - P.Fd @ x0)
+        if r0 > 1e-12 * np.linalg.norm(b):
+            ctx.fail("oracle", "c18:lin:exception", f"lin_solver raised YastnError({e}) although |b - f(v0)| = {r0}", case=case, concrete=True)
+        return
+    except Exception as e:
+        ctx.fail("oracle", "c18:lin:exception", f"lin_solver raised {type(e).__name__}: {e}", case=case, concrete=True); return
+    ctx.case(case, nontrivial=True)
+    bad = sector_ok(P, vf, bt)
+    if bad:
+        ctx.fail("oracle", "c18:lin:sector", f"lin_solver solution leaves the sector of b: {bad}", case=case, concrete=True); return
+    xf = P.to_vec(vf)[0]
+    res = float(np.real(res))
+    true = float(np.linalg.norm(P.Fd @ xf - b))
+    scale = P.normF * np.linalg.norm(xf) + np.linalg.norm(b)
+    ctx.count(f"{tag}:residual-checked")
+    ctx.extra["lin_max_residual_dev"] = max(ctx.extra.get("lin_max_residual_dev", 0.0), abs(res - true) / scale)
+    if not abs(res - true) <= 1e-10 * scale:
+        ctx.fail("oracle", "c18:lin:residual", f"lin_solver reports residual {res!r} but |f(vf) - b| = {true!r} for the returned vf (dim={P.dim}, ncv={ncv})", case=case, concrete=True)
+        return
+    # recorded calls: f(v0), f(q_0..), f(vf): the Krylov vectors are inputs 1..-2
+    Xq = W.inputs[1:-1]
+    r0 = float(np.linalg.norm(b - P.Fd @ x0))
+    if len(Xq) >= 1:
+        Xm, Q, delta, rinv = krylov_facts(P, Xq)
+        d = xf - x0
+        span = np.linalg.norm(d - Q @ (Q.conj().T @ d)) / max(np.linalg.norm(d), 1e-300)
+        if delta <= 1e-9 and np.linalg.norm(d) > 1e-6 * np.linalg.norm(xf) and span > 1e-7:
+            ctx.fail("oracle", "c18:lin:krylov-span", f"vf - v0 is not in the Krylov space of b - f(v0) (relative distance {span:.2e})", case=case, concrete=True)
+        cond = float(np.linalg.cond(P.Fd))
+        if delta <= 1e-9 and cond < 1e8:
+            # minimal residual over v0 + K_m (y = pinv(T) be1 solves the least-squares problem): compare with numpy lstsq on the same space
+            ctx.count(f"{tag}:minres-checked")
+            c, *_ = np.linalg.lstsq(P.Fd @ Q, b - P.Fd @ x0, rcond=None)
+            best = float(np.linalg.norm(P.Fd @ (x0 + Q @ c) - b))
+            if true > best * (1 + 1e-6) + 1e-9 * scale * max(1.0, ptol * cond * 1e9 if ptol > 1e-13 else 1.0) and ptol * cond < 1e-3:
+                ctx.fail("oracle", "c18:lin:not-minimal", f"residual {true:.3e} of lin_solver exceeds the least-squares optimum {best:.3e} over v0 + Krylov space "
+                         f"(dim={P.dim}, Krylov dimension {len(Xq)}, cond={cond:.1e})", case=case, concrete=True)
+            if (len(Xq) >= P.dim or rinv <= 1e-11 * P.normF) and cond < 1e4 and ptol * cond < 1e-3:
+                ctx.count(f"{tag}:converged-checked")
+                xs = np.linalg.solve(P.Fd, b)
+                e = float(np.linalg.norm(xf - xs) / np.linalg.norm(xs))
+                if e > 1e-9 * cond * 100:
+                    ctx.fail("oracle", "c18:lin:solution", f"Krylov space is complete but the solution differs from numpy.linalg.solve by {e:.2e} (cond {cond:.1e})", case=case, concrete=True)
+    if corr is not None:
+        corr.append((case, P, b, x0, ncv, xf, res))
+
+
+def corr_lin(ctx, items):
+    if ctx.drv is None:
+        return
+    for case, P, b, x0, ncv, xf, res in items:
+        cplx = bool(P.cplx)
+        base = {"cplx": cplx, "F": matJ(P.Fd, cplx), "b": vecJ(b, cplx), "v0": vecJ(x0, cplx), "ncv": int(ncv), "tol": bits(case["tol"]),
+                "herm": bool(case["hermitian"])}
+        r1 = ctx.drv.call(dict(base, op="lin_T"))
+        if not r1.get("ok") or "T" not in r1:
+            ctx.count("corr:lin:model-error:" + str(r1.get("err"))[:20]); continue
+        m = r1["m"]
+        T = np.array([[cnumP(z) for z in row] for row in r1["T"]]).reshape(m + 1, m)
+        be1 = np.zeros(m + 1, dtype=complex); be1[0] = cnumP(r1["normv"])
+        y = np.linalg.pinv(T if cplx else T.real, rcond=case["pinv_tol"]) @ (be1 if cplx else be1.real)
+        sv = np.linalg.svd(T, compute_uv=False)
+        r2 = ctx.drv.call(dict(base, op="lin_solver", y=[[bits(complex(z).real), bits(complex(z).imag)] for z in y]))
+        if not r2.get("ok") or "vf" not in r2:
+            ctx.fail("correspondence", "c18:corr:lin-model-error", f"model lin_solver failed: {str(r2)[:200]}", case=case); continue
+        xm = vecP(r2["vf"]); rm = cnumP(r2["res"]).real
+        ctx.count("corr:lin")
+        # the pseudo-inverse cut-off makes the solution discontinuous in T when a singular value sits at the threshold: skip those
+        if sv[-1] < 100 * case["pinv_tol"] * sv[0] or sv[0] / sv[-1] > 1e6:
+            ctx.count("corr:lin:skip-near-cutoff"); continue
+        cT = sv[0] / sv[-1]
+        d = np.linalg.norm(xm - xf) / max(np.linalg.norm(xf), 1e-300)
+        scale = P.normF * np.linalg.norm(xf) + np.linalg.norm(b)
+        if d > 1e-8 * cT or abs(rm - res) > 1e-8 * cT * scale:
+            ctx.fail("correspondence", "c18:corr:lin", f"model and real lin_solver differ: solution {d:.2e}, residual {rm!r} vs {res!r} (cond T {cT:.1e})", case=case)
+
+
+# ----------------------------------------------------------------------------------------------
+# contracts on the backend's small-matrix functions
+# ----------------------------------------------------------------------------------------------
+
+def contracts(ctx):
+    import yastn
+    backend = _config("dense").backend
+    g = np.random.default_rng(ctx.rng.randrange(2 ** 31))
+    for it in range(12 if ctx.quick else 60):
+        m = int(g.integers(1, 32))
+        cplx = bool(g.integers(0, 2))
+        # upper Hessenberg / Hermitian tridiagonal matrices with the extra unit column, as expmv builds them
+        M = g.normal(size=(m, m)) + (1j * g.normal(size=(m, m)) if cplx else 0)
+        Hs = np.triu(M, -1)
+        Hh = np.diag(np.diag(M).real) + np.diag(np.abs(np.diag(M, -1)), -1) + np.diag(np.abs(np.diag(M, -1)), 1)
+        for name, Tm in (("hessenberg", Hs), ("tridiagonal", Hh)):
+            T = np.zeros((m + 1, m + 1), dtype=Tm.dtype); T[:m, :m] = Tm / max(np.linalg.norm(Tm, 2), 1e-300); T[0, m] = 1
+            c = complex(g.normal(), g.normal()) * float(g.choice([0.1, 1, 5, 20]))
+            E = backend.expm(c * T)
+            # defining series on the scaled matrix, squared back (independent of scipy's Pade implementation)
+            s = max(0, int(np.ceil(np.log2(max(np.linalg.norm(c * T, 1), 1e-300)))) + 2)
+            A = c * T / 2 ** s
+            term = np.eye(m + 1, dtype=complex); S = term.copy()
+            for k in range(1, 25):
+                term = term @ A / k; S = S + term
+            for _ in range(s):
+                S = S @ S
+            dev = np.linalg.norm(E - S) / np.linalg.norm(S)
+            ctx.count("contract:expm")
+            if dev > 1e-9:
+                ctx.fail("contract", "c18:contract:expm", f"backend.expm differs from the exponential series by {dev:.2e} ({name}, m={m})")
+            if ctx.drv is not None and it < 6:
+                r = ctx.drv.call({"op": "expm", "M": [[[bits(z.real), bits(z.imag)] for z in row] for row in (c * T).astype(complex)]})
+                Em = np.array([[cnumP(z) for z in row] for row in r["E"]])
+                if np.linalg.norm(E - Em) / np.linalg.norm(E) > 1e-9:
+                    ctx.fail("contract", "c18:contract:model-expm", f"the driver's expm differs from backend.expm by {np.linalg.norm(E - Em) / np.linalg.norm(E):.2e}")
+        S_, U = backend.eigh(Hh)
+        ctx.count("contract:eigh")
+        if np.linalg.norm(Hh @ U - U * S_) > 1e-10 * max(np.linalg.norm(Hh), 1) or np.linalg.norm(U.conj().T @ U - np.eye(m)) > 1e-10 or np.any(np.diff(S_) < 0):
+            ctx.fail("contract", "c18:contract:eigh", f"backend.eigh of a tridiagonal matrix violates T U = U S / U unitary / ascending (m={m})")
+        S_, U = backend.eig(Hs)
+        ctx.count("contract:eig")
+        if np.linalg.norm(Hs @ U - U * S_) > 1e-9 * max(np.linalg.norm(Hs), 1):
+            ctx.fail("contract", "c18:contract:eig", f"backend.eig of a Hessenberg matrix violates T U = U S (m={m})")
+        for wh in ("LM", "SM", "LR", "SR"):
+            ind = backend.eigs_which(S_, wh)
+            kk = which_key(wh, S_[ind])
+            if np.any(np.diff(kk) < 0) or sorted(ind.tolist()) != list(range(m)):
+                ctx.fail("contract", "c18:contract:eigs_which", f"backend.eigs_which({wh}) is not an ascending argsort of its key")
+        Tl = np.zeros((m + 1, m), dtype=Hs.dtype); Tl[:m, :] = Hs; Tl[m, m - 1] = abs(g.normal())
+        Pm = backend.pinv(Tl, rcond=1e-13)
+        rhs = np.zeros(m + 1); rhs[0] = 1.3
+        ref, *_ = np.linalg.lstsq(Tl, rhs.astype(Tl.dtype), rcond=None)
+        ctx.count("contract:pinv")
+        cT = np.linalg.cond(Tl)
+        if cT < 1e6 and np.linalg.norm(Pm @ rhs - ref) > 1e-9 * cT * max(np.linalg.norm(ref), 1e-300):
+            ctx.fail("contract", "c18:contract:pinv", f"backend.pinv(T) @ e1 differs from the least-squares solution (m={m}, cond {cT:.1e})")
+
+
+# ----------------------------------------------------------------------------------------------
+
+EVAL = {"expmv": eval_expmv, "eigs": eval_eigs, "lin_solver": eval_lin}
+GEN = {"expmv": gen_expmv_case, "eigs": gen_eigs_case, "lin_solver": gen_lin_case}
+CORR = {"expmv": corr_expmv, "eigs": corr_eigs, "lin_solver": corr_lin}
+
+
+def fixed_cases(ctx):
+    """inputs named in the property text, always run."""
+    dense = {"sym": "dense", "legs": [{"s": 1, "t": [[]], "D": [5]}, {"s": -1, "t": [[]], "D": [9]}], "n": [], "seed": 7,
+             "dtype": "float64", "herm_op": True, "opkind": "full", "nterms": 1}
+    u1 = {"sym": "U1", "legs": [{"s": 1, "t": [[-1], [0], [1]], "D": [3, 4, 3]}, {"s": 1, "t": [[-1], [0], [1]], "D": [3, 4, 3]}], "n": [0], "seed": 11,
+          "dtype": "complex128", "herm_op": False, "opkind": "twosided", "nterms": 2}
+    z2 = {"sym": "Z2", "legs": [{"s": 1, "t": [[0], [1]], "D": [4, 3]}, {"s": -1, "t": [[0], [1]], "D": [3, 4]}], "n": [1], "seed": 3,
+          "dtype": "float64", "herm_op": True, "opkind": "full", "nterms": 1}
+    base = {"solver": "expmv", "start": ["random", None], "tol": 1e-10, "ncv": 5, "hermitian": False, "normalize": False, "return_info": True}
+    cases = [
+        dict(base, prob=dense, t=[0.0, 100.0], tkind="complex", hermitian=True),             # forces sub-stepping (45-dim, |t||F| = 100)
+        dict(base, prob=dense, t=[-40.0, 0.0], tkind="real", ncv=30, normalize=True),
+        dict(base, prob=u1, t=[3.0, 4.0], tkind="complex", ncv=2),
+        dict(base, prob=u1, t=[0.0, 0.0], tkind="int0"),
+        dict(base, prob=u1, t=[1.0, 0.0], tkind="real", start=["zero", None]),
+        dict(base, prob=z2, t=[0.0, -2.0], tkind="complex", start=["eigvec", None], hermitian=True),   # happy breakdown at the first step
+        dict(base, prob=z2, t=[-1.0, 0.0], tkind="real", start=["invariant", 3], hermitian=True, normalize=True),
+        dict(base, prob=dense, t=[0.0, 30.0], tkind="complex", ncv=31, hermitian=True),      # ncv above ncv_max
+        {"solver": "eigs", "prob": z2, "start": ["random", None], "k": 3, "which": "SR", "ncv": ["dim+", 0], "hermitian": True},
+        {"solver": "eigs", "prob": u1, "start": ["random", None], "k": 2, "which": "LM", "ncv": ["dim+", 2], "hermitian": False},
+        {"solver": "eigs", "prob": dense, "start": ["random", None], "k": 1, "which": "LR", "ncv": ["abs", 6], "hermitian": True},
+        {"solver": "lin_solver", "prob": dict(u1, shift=2.5), "v0": "zero", "ncv": ["dim+", 0], "tol": 1e-16, "pinv_tol": 1e-13, "hermitian": False},
+        {"solver": "lin_solver", "prob": dict(z2, shift=1.5), "v0": "random", "ncv": ["abs", 5], "tol": 1e-13, "pinv_tol": 1e-13, "hermitian": True},
+    ]
+    for c in cases:
+        items = []
+        EVAL[c["solver"]](ctx, c, items)
+        CORR[c["solver"]](ctx, items)
+        ctx.count("fixed")
+
+
+def run_stream(ctx, solver, n, deadline, corr_every):
+    rng = ctx.rng
+    items = []
+    for i in range(n):
+        if time.time() > deadline:
+            ctx.notes.append(f"{solver} loop stopped by the wall-clock guard after {i} cases")
+            break
+        case = GEN[solver](rng, ctx.quick)
+        EVAL[solver](ctx, case, items if (i % corr_every == 0) else None)
+        if len(items) >= 10:
+            CORR[solver](ctx, items)
+            items = []
+    CORR[solver](ctx, items)
+
+
+def run(ctx):
+    import yastn
+    ctx.rule = ("linear maps = functions on symmetric yastn tensors (rank-4 block operator contracted by tensordot, or sum of 1-3 two-sided products L x R), "
+                "Hermitian / non-Hermitian, real / complex, symmetries dense/Z2/U1/Z2xU1, rank-2 vector tensors with random signatures, 1-3 charges per leg "
+                "and a random total charge whose sector has dimension 4-200 (quick <= 60), maps normalised to |F|_2 = 1 (+ shift for lin_solver). "
+                "expmv: t = 0 (int/float/complex) or |t| in 1e-3..400 times a phase in {+1,-1,+i,-i,random}, tol in 1e-4..1e-14, ncv in {0..40}, hermitian flag "
+                "(only for Hermitian maps), normalize, return_info, start vectors random / zero / exact eigenvector / sum of 2-5 eigenvectors / eigenvector + 1e-4..1e-13 "
+                "noise; compared with eigh- or scipy.linalg.expm-based exp(tF)v within max(100 tol, 1e-9) x error amplification (cases with amplification > 1e3 "
+                "counted and skipped). eigs: all `which` (+ an unknown string), k 1-4, ncv >= dim or 1..30; Ritz pairs checked against the Krylov space recorded "
+                "from the calls of f (Galerkin condition, `which` order, exactness on invariant spaces, dense spectrum when the space is complete, variational "
+                "bounds / interlacing for Hermitian maps). lin_solver: returned residual vs recomputed |F vf - b|, minimal residual over v0 + Krylov space, "
+                "numpy.linalg.solve when complete. Non-trivial = non-zero start vector and t != 0; distinct by full case.")
+    ctx.assumptions += [
+        "hermitian=True is only passed for Hermitian maps (the flag is a promise of the caller)",
+        "floating point: value oracles use max(100 tol, 1e-9) relative times the measured error amplification of the dense problem; Ritz/least-squares oracles "
+        "are evaluated only while the recorded Krylov vectors are orthonormal to 1e-9 (loss of orthogonality is outside the exact-arithmetic theorems)",
+        "backend.expm / eigh / eig / pinv are validated as numerical contracts per run, not proved; the adaptive error estimate of expmv is heuristic even in exact arithmetic (tested, not proved)",
+        "eigs with k larger than the Krylov dimension raises IndexError (counted, outside the property); termination of expmv is not a theorem (expmvLoop has fuel)",
+    ]
+    ctx.extra["yastn_path"] = yastn.__file__
+    t0 = time.time()
+    if ctx.quick:
+        n_exp, n_eig, n_lin, budget = 230, 90, 70, 38
+    else:
+        n_exp, n_eig, n_lin, budget = 2500, 900, 700, 600
+    contracts(ctx)
+    fixed_cases(ctx)
+    run_stream(ctx, "expmv", n_exp, t0 + 0.55 * budget, 3 if ctx.quick else 4)
+    run_stream(ctx, "eigs", n_eig, t0 + 0.8 * budget, 3)
+    run_stream(ctx, "lin_solver", n_lin, t0 + budget, 3)
+
+
+def search(ctx, broken, budget_s):
+    """fresh random cases through the eager oracles (real code only) until something concrete shows up."""
+    t0 = time.time()
+    n = 0
+    while time.time() - t0 < budget_s and not any(f.concrete for f in ctx.findings):
+        for solver in ("expmv", "eigs", "lin_solver"):
+            EVAL[solver](ctx, GEN[solver](ctx.rng, ctx.quick), None)
+            n += 1
+    ctx.notes.append(f"failing-input search: {n} extra cases through the dense oracles on the real code")
+
+
+def replay(ctx, obj):
+    f = obj.get("finding") or {}
+    case = f.get("case") or obj.get("case")
+    if not case or "solver" not in case:
+        return run(ctx)
+    ctx.rule = "replay of one stored case"
+    items = []
+    EVAL[case["solver"]](ctx, case, items)
+    CORR[case["solver"]](ctx, items)
+    print(f"replay {case['solver']}: findings={[(x.key, x.what[:160]) for x in ctx.findings]}")
